@@ -1,4 +1,5 @@
 import JellyProofs.Lemmas.TermSim
+import JellyProofs.Lemmas.RowBracket
 /-!
 # Statement-level simulation (C03): `encodeTriple`, `encodeQuad`, `Stream.graph` pieces against
 # `Spec.step`
@@ -70,23 +71,24 @@ def SpoSlotsErr (te : TermEnc) (rep : Repeated) (s p o : Term) : Prop :=
       encSlot TermEnc.spo te1 rep.p p = (te2, rp, .ok (r2, wp)) ∧
       encSlot TermEnc.spo te2 rep.o o = (te3, pv, .error e))
 
-theorem SpoSlotsErr.encodeTriple {es : EncState} {s p o : Term}
+
+theorem SpoSlotsErr.encodeTriple {es : EncState} {s p o : Term} (hnb : es.te.broken = false)
     (h : SpoSlotsErr es.te.startRow es.rep s p o) (exc : PyErr) :
     ∃ es' e, encodeTriple exc es [s, p, o] = (es', .error e) := by
   rcases h with ⟨te1, pv, e, h1⟩ | ⟨te1, rs, r1, ws, te2, pv, e, h1, h2⟩ |
     ⟨te1, rs, r1, ws, te2, rp, r2, wp, te3, pv, e, h1, h2, h3⟩
-  · simp only [Jelly.encodeTriple, h1]; exact ⟨_, _, rfl⟩
-  · simp only [Jelly.encodeTriple, h1, h2]; exact ⟨_, _, rfl⟩
-  · simp only [Jelly.encodeTriple, h1, h2, h3]; exact ⟨_, _, rfl⟩
+  · simp only [encodeTriple_eq hnb, encodeTripleBody, h1]; exact ⟨_, _, rfl⟩
+  · simp only [encodeTriple_eq hnb, encodeTripleBody, h1, h2]; exact ⟨_, _, rfl⟩
+  · simp only [encodeTriple_eq hnb, encodeTripleBody, h1, h2, h3]; exact ⟨_, _, rfl⟩
 
-theorem SpoSlotsErr.encodeQuad {es : EncState} {s p o g : Term}
+theorem SpoSlotsErr.encodeQuad {es : EncState} {s p o g : Term} (hnb : es.te.broken = false)
     (h : SpoSlotsErr es.te.startRow es.rep s p o) (exc : PyErr) :
     ∃ es' e, encodeQuad exc es [s, p, o, g] = (es', .error e) := by
   rcases h with ⟨te1, pv, e, h1⟩ | ⟨te1, rs, r1, ws, te2, pv, e, h1, h2⟩ |
     ⟨te1, rs, r1, ws, te2, rp, r2, wp, te3, pv, e, h1, h2, h3⟩
-  · simp only [Jelly.encodeQuad, h1]; exact ⟨_, _, rfl⟩
-  · simp only [Jelly.encodeQuad, h1, h2]; exact ⟨_, _, rfl⟩
-  · simp only [Jelly.encodeQuad, h1, h2, h3]; exact ⟨_, _, rfl⟩
+  · simp only [encodeQuad_eq hnb, encodeQuadBody, h1]; exact ⟨_, _, rfl⟩
+  · simp only [encodeQuad_eq hnb, encodeQuadBody, h1, h2]; exact ⟨_, _, rfl⟩
+  · simp only [encodeQuad_eq hnb, encodeQuadBody, h1, h2, h3]; exact ⟨_, _, rfl⟩
 
 theorem spoSlots_sim_gen {F : Prop} {P : Preset} {T : Keys} (hpn : 0 < P.maxNames) (hf : F → TFits P T)
     {te : TermEnc} {R : Keys}
@@ -163,6 +165,10 @@ theorem WFT.tinv {P : Preset} {te : TermEnc} (h : WFT P te) (T : Keys) : TInv P 
    PinOK.nil rfl, PinOK.nil rfl, PinOK.nil rfl,
    ⟨fun _ h => by simp at h, fun _ h => by simp at h, fun _ h => by simp at h⟩, h.p0⟩
 
+/-- `pinned` / `rowOpen` are invisible to `WFT`. -/
+theorem WFT.endRow {P : Preset} {te : TermEnc} (h : WFT P te) : WFT P te.endRow :=
+  ⟨h.wfn.congr rfl rfl rfl, h.wfp.congr rfl rfl rfl, h.wfd.congr rfl rfl rfl, h.maxn, h.maxp, h.maxd, h.p0⟩
+
 theorem TInv.wft {P : Preset} {T : Keys} {te : TermEnc} {R : Keys} (h : TInv P T te R) : WFT P te :=
   ⟨h.wfn, h.wfp, h.wfd, h.maxn, h.maxp, h.maxd, h.p0⟩
 
@@ -183,6 +189,11 @@ theorem EM.setLR_rep {te : TermEnc} {ss : Spec.State} (m : EM te ss) (te' : Term
 
 /-- `pinned` is invisible to the mirror. -/
 theorem EM.startRow {te : TermEnc} {ss : Spec.State} (m : EM te ss) : EM te.startRow ss :=
+  ⟨⟨m.n.size, m.n.len, m.n.la, m.n.res⟩, ⟨m.p.size, m.p.len, m.p.la, m.p.res⟩,
+   ⟨m.d.size, m.d.len, m.d.la, m.d.res⟩⟩
+
+/-- `pinned` / `rowOpen` are invisible to the mirror. -/
+theorem EM.endRow {te : TermEnc} {ss : Spec.State} (m : EM te ss) : EM te.endRow ss :=
   ⟨⟨m.n.size, m.n.len, m.n.la, m.n.res⟩, ⟨m.p.size, m.p.len, m.p.la, m.p.res⟩,
    ⟨m.d.size, m.d.len, m.d.la, m.d.res⟩⟩
 
@@ -213,6 +224,8 @@ structure Inv (P : Preset) (es : EncState) (ss : Spec.State) : Prop where
   rp : ss.rep.p = es.rep.p.map Term.norm
   ro : ss.rep.o = es.rep.o.map Term.norm
   rg : ss.rep.g = es.rep.g.map Term.norm
+  /-- The encoder is not broken: the next row can be started. -/
+  nb : es.te.broken = false
 
 /-- What a successful `encodeTriple` guarantees (shared by the general and the sized form). -/
 def TripleSimOK (P : Preset) (es : EncState) (ss : Spec.State) (exc : PyErr) (s p o : Term) : Prop :=
@@ -232,19 +245,19 @@ theorem encodeTriple_sim_gen {F : Prop} {P : Preset} {T : Keys} (hpn : 0 < P.max
     (¬ F ∧ ∃ es' e, encodeTriple exc es [s, p, o] = (es', .error e)) ∨ TripleSimOK P es ss exc s p o := by
   rcases spoSlots_sim_gen hpn hf (inv.wft.tinv T) es.rep s p o hs hp ho ks kp ko with
     ⟨hnF, herr⟩ | ⟨te1, te2, te3, r1, r2, r3, ws, wp, wo, R3, e1, e2, e3, sim, res⟩
-  · exact Or.inl ⟨hnF, herr.encodeTriple exc⟩
+  · exact Or.inl ⟨hnF, herr.encodeTriple inv.nb exc⟩
   right
   obtain ⟨ssE, mE, fE, runE⟩ := sim.ing ss inv.em.startRow hopts
   have hself : setLR ssE es.te.startRow = ssE :=
     setLR_eq_self (fE.lrn.trans inv.lrn) (fE.lrp.trans inv.lrp) (fE.lrd.trans inv.lrd)
   have hres := res ssE (mE.agree sim.inv.wft R3) (fE.rep ▸ inv.rs) (fE.rep ▸ inv.rp) (fE.rep ▸ inv.ro)
   rw [hself] at hres
-  refine ⟨{ te := te3, rep := { es.rep with s := some s, p := some p, o := some o } },
+  refine ⟨{ te := te3.endRow, rep := { es.rep with s := some s, p := some p, o := some o } },
     r1 ++ r2 ++ r3, ws, wp, wo, ssE, _, ?_, runE, fE, hres, ?_, fE.opts, fE.graph⟩
-  · simp only [encodeTriple, e1, e2, e3]
-  · exact ⟨sim.inv.wft, mE.setLR_rep te3 _, rfl, rfl, rfl, rfl, rfl, rfl, by
+  · simp only [encodeTriple_eq inv.nb, encodeTripleBody, e1, e2, e3]
+  · exact ⟨sim.inv.wft.endRow, (mE.setLR_rep te3 _).endRow, rfl, rfl, rfl, rfl, rfl, rfl, by
       show ssE.rep.g = es.rep.g.map Term.norm
-      rw [fE.rep]; exact inv.rg⟩
+      rw [fE.rep]; exact inv.rg, rfl⟩
 
 theorem encodeTriple_sim {P : Preset} {T : Keys} (hf : TFits P T) {es : EncState} {ss : Spec.State}
     (inv : Inv P es ss) (hopts : ss.opts ≠ none) (exc : PyErr) (s p o : Term)
@@ -281,11 +294,11 @@ theorem encodeQuad_sim_gen {F : Prop} {P : Preset} {T : Keys} (hpn : 0 < P.maxNa
     (¬ F ∧ ∃ es' e, encodeQuad exc es [s, p, o, g] = (es', .error e)) ∨ QuadSimOK P es ss exc s p o g := by
   rcases spoSlots_sim_gen hpn hf (inv.wft.tinv T) es.rep s p o hs hp ho ks kp ko with
     ⟨hnF, herr⟩ | ⟨te1, te2, te3, r1, r2, r3, ws, wp, wo, R3, e1, e2, e3, sim3, res⟩
-  · exact Or.inl ⟨hnF, herr.encodeQuad exc⟩
+  · exact Or.inl ⟨hnF, herr.encodeQuad inv.nb exc⟩
   rcases encSlot_sim_gen sim3.inv es.rep.g g (graph_sim_gen hpn hf g te3 R3 hg sim3.inv kg) with
     ⟨hnF, te', pv, e, herr⟩ | ⟨te4, r4, wg, R4, e4, s4, res4⟩
   · refine Or.inl ⟨hnF, ?_⟩
-    simp only [encodeQuad, e1, e2, e3, herr]
+    simp only [encodeQuad_eq inv.nb, encodeQuadBody, e1, e2, e3, herr]
     exact ⟨_, _, rfl⟩
   right
   have sim := sim3.trans s4
@@ -298,10 +311,11 @@ theorem encodeQuad_sim_gen {F : Prop} {P : Preset} {T : Keys} (hpn : 0 < P.maxNa
   rw [hself] at hres
   have hres4 := res4 { ssE with rep := { ssE.rep with s := some s.norm, p := some p.norm, o := some o.norm } }
     ssE.rep.g (by rw [fE.rep]; exact inv.rg) ha4
-  refine ⟨{ te := te4, rep := { s := some s, p := some p, o := some o, g := some g } },
+  refine ⟨{ te := te4.endRow, rep := { s := some s, p := some p, o := some o, g := some g } },
     r1 ++ r2 ++ r3 ++ r4, ws, wp, wo, wg, ssE, _, _, ?_, runE, fE, hres, hres4, ?_, fE.opts, fE.graph⟩
-  · simp only [encodeQuad, e1, e2, e3, e4]
-  · exact ⟨sim.inv.wft, mE.congr ⟨rfl, rfl, rfl⟩ ⟨rfl, rfl, rfl⟩ ⟨rfl, rfl, rfl⟩, rfl, rfl, rfl, rfl, rfl, rfl, rfl⟩
+  · simp only [encodeQuad_eq inv.nb, encodeQuadBody, e1, e2, e3, e4]
+  · exact ⟨sim.inv.wft.endRow, EM.endRow (te := te4) (mE.congr ⟨rfl, rfl, rfl⟩ ⟨rfl, rfl, rfl⟩ ⟨rfl, rfl, rfl⟩),
+      rfl, rfl, rfl, rfl, rfl, rfl, rfl, rfl⟩
 
 theorem encodeQuad_sim {P : Preset} {T : Keys} (hf : TFits P T) {es : EncState} {ss : Spec.State}
     (inv : Inv P es ss) (hopts : ss.opts ≠ none) (exc : PyErr) (s p o g : Term)
@@ -327,7 +341,7 @@ def GraphStartSimOK (P : Preset) (es : EncState) (ss : Spec.State) (g : Term) : 
       (∀ rest acc i, Spec.run ss (rows ++ rest) acc i = Spec.run ssE rest acc (i + rows.length)) ∧
       SameFrame ss ssE ∧
       Spec.resolveTerm true ssE w = .ok (ss', g.norm) ∧
-      (∀ x, Inv P { es with te := te' } { ss' with graph := x }) ∧ ss'.opts = ss.opts
+      (∀ x, Inv P { es with te := te'.endRow } { ss' with graph := x }) ∧ ss'.opts = ss.opts
 
 /-- The graph-start part of `Stream.graph`. -/
 theorem graphStart_sim_gen {F : Prop} {P : Preset} {T : Keys} (hpn : 0 < P.maxNames) (hf : F → TFits P T)
@@ -346,11 +360,11 @@ theorem graphStart_sim_gen {F : Prop} {P : Preset} {T : Keys} (hpn : 0 < P.maxNa
   rw [hself] at hres
   refine ⟨te', rows, w, ssE, _, heq, runE, fE, hres, ?_, fE.opts⟩
   intro x
-  exact ⟨sim.inv.wft, mE.congr ⟨rfl, rfl, rfl⟩ ⟨rfl, rfl, rfl⟩ ⟨rfl, rfl, rfl⟩, rfl, rfl, rfl,
+  exact ⟨sim.inv.wft.endRow, EM.endRow (te := te') (mE.congr ⟨rfl, rfl, rfl⟩ ⟨rfl, rfl, rfl⟩ ⟨rfl, rfl, rfl⟩), rfl, rfl, rfl,
     by show ssE.rep.s = _; rw [fE.rep]; exact inv.rs,
     by show ssE.rep.p = _; rw [fE.rep]; exact inv.rp,
     by show ssE.rep.o = _; rw [fE.rep]; exact inv.ro,
-    by show ssE.rep.g = _; rw [fE.rep]; exact inv.rg⟩
+    by show ssE.rep.g = _; rw [fE.rep]; exact inv.rg, rfl⟩
 
 theorem graphStart_sim {P : Preset} {T : Keys} (hf : TFits P T) {es : EncState} {ss : Spec.State}
     (inv : Inv P es ss) (hopts : ss.opts ≠ none) (g : Term) (hg : g.WFGraph = true)
@@ -360,7 +374,7 @@ theorem graphStart_sim {P : Preset} {T : Keys} (hf : TFits P T) {es : EncState} 
       (∀ rest acc i, Spec.run ss (rows ++ rest) acc i = Spec.run ssE rest acc (i + rows.length)) ∧
       SameFrame ss ssE ∧
       Spec.resolveTerm true ssE w = .ok (ss', g.norm) ∧
-      (∀ x, Inv P { es with te := te' } { ss' with graph := x }) ∧ ss'.opts = ss.opts := by
+      (∀ x, Inv P { es with te := te'.endRow } { ss' with graph := x }) ∧ ss'.opts = ss.opts := by
   rcases graphStart_sim_gen (F := True) hf.posn (fun _ => hf) inv hopts g hg kg with ⟨h, _⟩ | h
   · exact absurd trivial h
   · exact h
@@ -368,7 +382,7 @@ theorem graphStart_sim {P : Preset} {T : Keys} (hf : TFits P T) {es : EncState} 
 theorem Inv.graph {P : Preset} {es : EncState} {ss : Spec.State} (inv : Inv P es ss) (x : Option Term) :
     Inv P es { ss with graph := x } :=
   ⟨inv.wft, inv.em.congr ⟨rfl, rfl, rfl⟩ ⟨rfl, rfl, rfl⟩ ⟨rfl, rfl, rfl⟩,
-    inv.lrn, inv.lrp, inv.lrd, inv.rs, inv.rp, inv.ro, inv.rg⟩
+    inv.lrn, inv.lrp, inv.lrd, inv.rs, inv.rp, inv.ro, inv.rg, inv.nb⟩
 
 
 /-! ## From `stmtFits` to the abstract sizing hypothesis -/
@@ -590,7 +604,7 @@ theorem quad_run {P : Preset} {T : Keys} (hf : TFits P T) {es : EncState} {ss : 
   · exact h
 
 def GraphStartRunOK (P : Preset) (es : EncState) (ss : Spec.State) (o : Options) (g : Term) : Prop :=
-    ∃ te' rows w ss', es.te.startRow.graph g = (te', .ok (rows, w)) ∧ Inv P { es with te := te' } ss' ∧
+    ∃ te' rows w ss', es.te.startRow.graph g = (te', .ok (rows, w)) ∧ Inv P { es with te := te'.endRow } ss' ∧
       ss'.opts = some o ∧ ss'.graph = some g.norm ∧
       ∀ rest acc i, Spec.run ss (rows ++ [Row.graphStart (some w)] ++ rest) acc i
         = Spec.run ss' rest acc (i + (rows ++ [Row.graphStart (some w)]).length)
@@ -622,7 +636,7 @@ theorem graphStart_run_gen {F : Prop} {P : Preset} {T : Keys} (hpn : 0 < P.maxNa
 theorem graphStart_run {P : Preset} {T : Keys} (hf : TFits P T) {es : EncState} {ss : Spec.State}
     (inv : Inv P es ss) {o : Options} (hopt : ss.opts = some o) (h3 : o.physicalType = 3)
     (g : Term) (hg : g.WFGraph = true) (kg : (termKeys (P.maxPrefixes != 0) g).sub T) :
-    ∃ te' rows w ss', es.te.startRow.graph g = (te', .ok (rows, w)) ∧ Inv P { es with te := te' } ss' ∧
+    ∃ te' rows w ss', es.te.startRow.graph g = (te', .ok (rows, w)) ∧ Inv P { es with te := te'.endRow } ss' ∧
       ss'.opts = some o ∧ ss'.graph = some g.norm ∧
       ∀ rest acc i, Spec.run ss (rows ++ [Row.graphStart (some w)] ++ rest) acc i
         = Spec.run ss' rest acc (i + (rows ++ [Row.graphStart (some w)]).length) := by
